@@ -52,6 +52,11 @@ def main():
         broken.append({"component": "extractor:" + k, "message": e})
     if not proof["ok"]:
         broken.append({"component": "theorem", **(proof["broken"] or {})})
+    coqchk_summary = None
+    if proof["ok"] and tier == "thorough":
+        chk_ok, coqchk_summary = vlib.run_coqchk(args.prop)
+        if not chk_ok:
+            broken.append({"component": "theorem", "theorem": "Props/%s.v (coqchk)" % args.prop, "message": coqchk_summary})
     # 3/4. quirk probes + correspondence + oracle on the implementation
     res = None
     harness_error = None
@@ -111,6 +116,8 @@ def main():
     tb = ["kernel: coqc 8.16.1 (vm_compute used for computed table checks, _refuted witnesses and case evaluation; no native_compute)",
           "extractor tools/gen/gen.py (fail-closed ast reader)",
           "correspondence harness tools/harness/%s.py (differential testing; validates the model, not a proof)" % ctx.prop]
+    if coqchk_summary:
+        tb.append("coqchk -o (independent checker, thorough tier): " + coqchk_summary)
     for name, txt in proof["assumptions"].items():
         tb.append("Print Assumptions %s: %s" % (name, " ".join(txt.split())))
     cov = {"obligations": nthm, "discharged": discharged,
